@@ -203,7 +203,8 @@ def run_core(pid, tier, seed, plan):
                 path = os.path.join(rp_dir, r["run"] + ".json")
                 engine.write_replay(path, consts, cfg_by_run[r["run"]], beh_of(r),
                                     note={"failed": v, "taint": r["taint"], "drift": r["drift"],
-                                          "commands": script_of(r)})
+                                          "commands": script_of(r), "pid": pid, "tier": tier,
+                                          "campaign": camp["name"]})
                 with open(path.replace(".json", ".ndjson"), "w") as fh:
                     for e in r["events"]:
                         fh.write(json.dumps(e) + "\n")
@@ -271,19 +272,33 @@ def run_core(pid, tier, seed, plan):
 
 
 def replay_file(path):
+    """re-execute one recorded behaviour with the engine of the campaign it came from and print the verdict"""
+    from . import campaigns
     d = json.load(open(path))
+    note = d.get("note") or {}
+    plan = campaigns.PLANS.get(note.get("pid"), {})
+    cplan = dict(plan)
+    for camp in plan.get(note.get("tier", "quick"), []):
+        if camp["name"] == note.get("campaign"):
+            cplan.update(camp.get("plan_override", {}))
     gitai = engine.build_gitai()
-    results = engine.replay_many(gitai, [(d["cfg"], [dict(e, a=e.get("a", e.get("ev"))) for e in d["behaviour"]],
-                                          "replay")], procs=1)
+    if cplan.get("prebuild"):
+        cplan["prebuild"]()
+    beh = [dict((k, v) for k, v in e.items() if k != "ev") | {"a": e.get("a", e.get("ev"))} for e in d["behaviour"]]
+    results = engine.replay_many(gitai, [(d["cfg"], beh, "replay")], procs=1, executor=cplan.get("executor"))
     if results[0][2]:
         print("TOOL-ERROR: %s" % results[0][2])
         return 2
-    runs, tres = engine.validate(d["consts"], results, os.path.join(engine.WORK, "check", "replay"))
+    runs, tres = engine.validate(d["consts"], results, os.path.join(engine.WORK, "check", "replay"),
+                                 module=cplan.get("module", "MC_Core.tla"), const_keys=cplan.get("const_keys"),
+                                 end_event=cplan.get("end_event"))
     if not runs:
         print("TOOL-ERROR: trace not accepted: %s" % tres[0]["errors"][:3])
         return 2
     r = runs[0]
     for a, rc, err in r["info"].get("log", []):
         print("  $ %s   # exit %s" % (a, rc))
-    print("failed clauses:", r["viol"], "drift:", r["drift"], "taint:", r["taint"])
-    return 1 if r["viol"] else 0
+    clauses = plan.get("clauses")
+    failed = [x for x in r["viol"] if clauses is None or x[1] in clauses]
+    print("failed clauses:", failed, "drift:", r["drift"], "taint:", r["taint"])
+    return 1 if failed else 0
